@@ -84,8 +84,29 @@ impl IntoData for i64 {
 
 impl IntoData for i128 {
     fn as_data(&self) -> PlutusData {
-        let int = Int::try_from(*self).unwrap();
-        PlutusData::BigInt(BigInt::Int(int))
+        // integers whose magnitude fits 64 bits are plain CBOR integers, larger ones are
+        // bignums (tag 2 / 3 over the minimal big-endian magnitude)
+        match Int::try_from(*self) {
+            Ok(int) => PlutusData::BigInt(BigInt::Int(int)),
+            Err(_) => {
+                let (negative, magnitude) = if *self >= 0 {
+                    (false, *self as u128)
+                } else {
+                    // tag 3 encodes -1 - n
+                    (true, (-1 - *self) as u128)
+                };
+
+                let bytes = magnitude.to_be_bytes();
+                let first = bytes.iter().position(|b| *b != 0).unwrap_or(bytes.len());
+                let bytes = BoundedBytes::from(bytes[first..].to_vec());
+
+                if negative {
+                    PlutusData::BigInt(BigInt::BigNInt(bytes))
+                } else {
+                    PlutusData::BigInt(BigInt::BigUInt(bytes))
+                }
+            }
+        }
     }
 }
 
